@@ -57,3 +57,41 @@ func famRedef(r *rng) []string {
 	res = append(res, call)
 	return res
 }
+
+// C05 (second family): the ways out of a counted loop taken while OTHER register loops of the same environment are
+// still running (an error swallowed by catch inside an enclosing loop, return from a function's loop nest), and
+// every kind of assignment to a parameter / loop variable that the register rewrite has to refuse.
+func famRegs2(r *rng) []string {
+	var res []string
+	// 1. nest of counted loops with a catch at a random level and an exit at the innermost one
+	depth := 2 + r.intn(6)
+	catchAt := 1 + r.intn(depth-1) // the loop at this level is wrapped in catch(...)
+	exit := pickS(r, "error(\"boom\")", "if i0 == 1 {error(\"boom\")}", "1/0", "x0 = [1][5]", "if i0 == 0 {break}", "undefined_name")
+	loop := "print(i0)\n" + exit
+	for d := 0; d < depth; d++ {
+		name := fmt.Sprintf("i%d", d)
+		hdr := pickS(r, fmt.Sprintf("for %s = %d", name, 2+r.intn(2)), fmt.Sprintf("for %s = 0:%d", name, 2+r.intn(2)), fmt.Sprintf("for %s := %d", name, 2+r.intn(2)))
+		loop = hdr + " {\n" + loop + "\n}"
+		if d == catchAt-1 {
+			loop = pickS(r, "catch("+loop+")", "c = catch("+loop+"); print(c.err)", "println(catch("+loop+").err)")
+		}
+	}
+	res = append(res, pickS(r, loop, "lp = func(){ "+loop+" }; lp(); lp()", "func lp2(a, b){ "+loop+"; a + b }; println(lp2(1, 2)); println(lp2(1, 2))"))
+	res = append(res, "println(\"after\")", "for k = 3 { for k2 = 2 { print(k, k2) } }; println()")
+	// 2. assignments to the variable that may live in a register
+	p := pickS(r, "n", "a", "i")
+	val := pickS(r, `"s"`, "1.5", "["+p+"]", "{1:"+p+"}", "nil", "true", p+" * 2", p+" + 0.5", "func(){1}")
+	asg := pickS(r,
+		p+" := "+val,
+		p+" = "+val,
+		"if "+p+" > 0 { "+p+" := "+val+" }",
+		"for "+p+" := 2 { print("+p+") }",
+		"for "+p+" = 2 { print("+p+") }",
+		"for "+p+" := 0:2 { print("+p+") }",
+		"q = ("+p+" := "+val+")",
+		p+" += 1",
+		p+"++; "+p+" := "+val)
+	res = append(res, "func fa("+p+", z){ "+asg+"; println("+p+"); ["+p+", z] }", "println(fa(3, 4))", "println(fa(3, 4))", "println(fa(\"x\", 4))")
+	res = append(res, "for "+p+" = 2 { "+asg+"; println("+p+") }", "println("+p+")")
+	return res
+}
